@@ -3,4 +3,4 @@
 import sys, os
 sys.path.insert(0, os.path.dirname(os.path.abspath(__file__)))
 import crates_common
-if __name__ == '__main__': crates_common.run('C09', r'C09', gens=(2,), members=True)
+if __name__ == '__main__': crates_common.run('C09', r'C09', gens=(2,), members=(2,))
